@@ -49,3 +49,30 @@ Lemma hkdf_extract_both salt ikm :
 Proof.
   split; apply hkdf_extract_eq; [exact sm3_stream | exact sha256_stream].
 Qed.
+
+Lemma sha256_len m : length (sha256 m) = 32.
+Proof.
+  unfold sha256, md_hash, sha256_out.
+  set (s := foldn _ _ _ _ _ _).
+  assert (H : forall k st d, length st = 8 -> length (foldn (list N) sha256_compress 64 k st d) = 8).
+  { induction k as [|k IH]; intros st d Hs; cbn [foldn]; [exact Hs|].
+    apply IH. unfold sha256_compress, sha2_compress.
+    destruct st as [|a [|b [|c [|d0 [|e [|f [|g [|h [|]]]]]]]]]; try discriminate Hs.
+    destruct (fold_left _ _ _) as [[[[[[[A B] C] D] E] F] G] Hh]. reflexivity. }
+  assert (Hs : length s = 8) by (apply H; reflexivity).
+  destruct s as [|a [|b [|c [|d0 [|e [|f [|g [|h [|]]]]]]]]]; try discriminate Hs.
+  reflexivity.
+Qed.
+
+Lemma hkdf_expand_both prk info L :
+  (L <= 255 * 32 ->
+     sm3_hkdf_expand prk info L = Some (sm3_hkdf_expand_spec prk info L) /\
+     sha256_hkdf_expand prk info L = Some (sha256_hkdf_expand_spec prk info L)) /\
+  (255 * 32 < L -> sm3_hkdf_expand prk info L = None /\ sha256_hkdf_expand prk info L = None).
+Proof.
+  split; intros HL; split.
+  - apply hkdf_expand_eq; [exact sm3_stream | exact sm3_len | lia | exact HL].
+  - apply hkdf_expand_eq; [exact sha256_stream | exact sha256_len | lia | exact HL].
+  - apply hkdf_expand_too_long with (H := sm3) (hlen := 32); [exact sm3_stream | exact sm3_len | lia | exact HL].
+  - apply hkdf_expand_too_long with (H := sha256) (hlen := 32); [exact sha256_stream | exact sha256_len | lia | exact HL].
+Qed.
